@@ -215,6 +215,9 @@ def c08_spawn(ctx):
                 for pbb, pc in r.call_sites():
                     if method(pc['t']) == 'push' and base_of(r, pc['args'][0]) == hb and len(pc['args']) > 1 and pc['args'][1] == c['res']:
                         inc_blocks.append(pbb)
+                # a push of the handle necessarily follows the spawn that produced it: the cycle check starts at the spawn
+                if inc_blocks and gbb in cfg.reach_strict(bb, avoid=set(inc_blocks)):
+                    inc_blocks = []
                 why = 'counter = len(handles); increment = handles.push(spawned)'
             else:
                 for (sbb, si), st in r.stores.items():
@@ -222,7 +225,7 @@ def c08_spawn(ctx):
                         inc_blocks.append(sbb)
                 why = 'counter = %s; increment = += 1' % t_str(N)
             # every path from the spawn back to the guard passes an increment
-            ok = bool(inc_blocks) and gbb not in cfg.reach_strict(bb, avoid=set(inc_blocks))
+            ok = bool(inc_blocks) and gbb not in (cfg.reach(sw[1], avoid=set(inc_blocks)) if sw[1] not in inc_blocks else set())
             # and the increment happens once: no two increments on one path between spawn and guard
             out.inst(key, ok, why, sample={'entry': ek, 'guard': 'do_spawn(%s)' % t_str(N)[:60], 'increment_blocks': len(inc_blocks)})
             if not ok:
@@ -691,6 +694,15 @@ class MergeView:
         self.OUT = P(b.local_name(op[0])) if op else None
         self.reads = [(bb, c) for bb, c in self.calls.items() if (is_own_prim(res(c['t']), c['t']) or '').startswith('ptr::read')]
         self.set_lens = [(bb, c) for bb, c in self.calls.items() if is_own_prim(res(c['t']), c['t']) == 'set_len']
+        # `chain.for_each(|v| v.set_len(0))`: the reset of each element of the chain happens at the for_each call
+        self.foreach_set_lens = []
+        for bb, c in self.calls.items():
+            if method(c['t']) == 'for_each' and decl(c['t']).startswith(ITER) and len(c['nargs']) == 2 and c['nargs'][1][0] == 'closure':
+                e = I.elem(c['nargs'][0])
+                rr = ctx.opa.run(c['nargs'][1][1], [c['nargs'][1], e])
+                for _, cc in rr.call_sites():
+                    if is_own_prim(res(cc['t']), cc['t']) == 'set_len':
+                        self.foreach_set_lens.append((bb, dict(cc, nargs=[I.normalize(a) for a in cc['args']], line=c['line'])))
         self.L = cfg.innermost_loop(self.reads[0][0]) if self.reads else None
         self.CUR = None
         self.v = None
@@ -742,8 +754,13 @@ def merge_checks(ctx, b, out, prefix):
             continue
         p = I.normalize(st['ptr'])
         val = I.normalize(st['value'])
-        if p[0] == 'call' and tcallee(p).endswith('IndexMut::index_mut') and p[2][1] == v and val == ('bin', 'Add', p, ('const', 1)):
-            incs.append((sbb, p))
+        if p[0] == 'call' and tcallee(p).endswith('IndexMut::index_mut') and p[2][1] == v and val[0] == 'bin' and val[1] == 'Add' and val[3] == ('const', 1):
+            base_i = p[2][0]
+            while base_i[0] == 'mut':
+                base_i = base_i[1]
+            pre_read = ('call', 'std::ops::Index::index', (base_i, v))
+            if val[2] == p or val[2] == pre_read:
+                incs.append((sbb, ('call', p[1], (base_i, v))))
     idx_bases = {mv.base(p[2][0]) for _, p in incs}
     if len(incs) != 1:
         bad('M3-inc', '%d `indices[v] += 1` stores in the merge loop (expected exactly one)' % len(incs))
@@ -909,11 +926,46 @@ def c13_pair(ctx):
         mv = MergeView(ctx, b)
         r, I, cfg = mv.r, mv.I, mv.cfg
         k = 'C13-PAIR/' + key_of(b)
-        if len(mv.reads) != 1 or mv.V is None:
+        if not mv.reads or mv.V is None:
             out.fail(k + '/shape', '%s: %d raw reads; pairing not decidable' % (key_of(b), len(mv.reads)), b.where(), kind='undecided')
             continue
-        rbb, rc = mv.reads[0]
+        for ri, (rbb, rc) in enumerate(mv.reads):
+            _pair_one_read(ctx, out, b, mv, k if ri == 0 else '%s/read%d' % (k, ri + 1), rbb, rc)
+        # vectors dropped normally afterwards (its buffers are freed)
+        drops = [bb for bb in r.visited if b.blocks[bb]['term']['t'] == 'drop' and not b.blocks[bb]['cleanup'] and b.blocks[bb]['term']['pl']['l'] in
+                 [l for l in b.arg_locals() if P(b.local_name(l)) == mv.V]]
+        out.inst(k + '/freed', bool(drops), 'vectors dropped on the normal path (buffers freed)')
+        if not drops:
+            out.fail(k + '/freed', '%s: `vectors` is never dropped on the normal path: its buffers leak' % key_of(b), b.where())
+    out.floor('merge_functions', len(ms), 2 if not ctx.fixture else 0)
+    return out
+
+
+def _pair_one_read(ctx, out, b, mv, k, rbb, rc):
+        r, I, cfg = mv.r, mv.I, mv.cfg
         ok_sets = []
+        for (sbb, sc) in mv.foreach_set_lens:
+            a = sc['nargs']
+            okf = len(a) == 2 and a[1] == ('const', 0) and a[0][0] == 'elem'
+            why = ''
+            if okf:
+                names, root = I.spine(a[0][1])
+                badad = [x for x in names if x not in ('iter_mut', 'into_iter', 'iter', 'by_ref')]
+                rb = root
+                if rb[0] == 'call' and method_of_term(rb) in ('iter_mut', 'deref_mut', 'deref'):
+                    rb = rb[2][0]
+                if badad:
+                    okf, why = False, 'the vectors are visited through `%s`' % badad[0]
+                elif mv.base(rb) != mv.V:
+                    okf, why = False, 'the for_each is not over `vectors`'
+                elif not cfg.postdominates(sbb, rbb):
+                    okf, why = False, 'the length reset does not post-dominate the raw read'
+            else:
+                why = 'for_each closure does not reset each vector to length 0'
+            ok_sets.append(okf)
+            out.inst(k + '/set_len', okf, why or 'vectors.iter_mut().for_each(|v| v.set_len(0)) post-dominates the read', sample={'merge': key_of(b), 'set_len_arg': t_str(a[0])[:120]})
+            if not okf:
+                out.fail(k + '/set_len', '%s: %s' % (key_of(b), why), b.where(sc['line']))
         for (sbb, sc) in mv.set_lens:
             L2 = cfg.innermost_loop(sbb)
             a = sc['nargs']
@@ -948,14 +1000,6 @@ def c13_pair(ctx):
                 out.fail(k + '/set_len', '%s: %s' % (key_of(b), why), b.where(sc['line']))
         if not any(ok_sets):
             out.fail(k + '/unpaired', '%s: the raw read has no post-dominating `set_len(0)` over all vectors: moved-out elements are dropped a second time' % key_of(b), b.where(rc['line']))
-        # no return between the read and the reset; vectors dropped normally afterwards (its buffers are freed)
-        drops = [bb for bb in r.visited if b.blocks[bb]['term']['t'] == 'drop' and not b.blocks[bb]['cleanup'] and b.blocks[bb]['term']['pl']['l'] in
-                 [l for l in b.arg_locals() if P(b.local_name(l)) == mv.V]]
-        out.inst(k + '/freed', bool(drops), 'vectors dropped on the normal path (buffers freed)')
-        if not drops:
-            out.fail(k + '/freed', '%s: `vectors` is never dropped on the normal path: its buffers leak' % key_of(b), b.where())
-    out.floor('merge_functions', len(ms), 2 if not ctx.fixture else 0)
-    return out
 
 
 @rule('C14-WINDOW', 'no user code can run between the raw read and the length reset (the double-drop window)')
@@ -1054,6 +1098,29 @@ def c01_reserve(ctx):
             out.inst(key, ok, '%d reservation(s) before the conversion' % len(rel), sample={'fn': key_of(b), 'converted': t_str(src)[:160], 'reserve_blocks': len(rel)})
             if not ok:
                 out.fail(key, '%s converts its target into a ConcurrentOrderedBag on a path without a preceding capacity reservation: positional writes past the current capacity are out of bounds / lost' % key_of(b), b.where(t.get('line')))
+            # the reserved amount covers what will be written: `additional` APIs (Vec::reserve) need the input length,
+            # `total` APIs (reserve_maximum_concurrent_capacity) need existing length + input length
+            for rb, c in reserves:
+                if rb not in rel or len(c['args']) < 2:
+                    continue
+                amount = c['args'][1]
+                total_api = 'capacity' in method(c['t'])
+                in_len = [x for x in subterms(amount) if x[0] == 'call' and method_of_term(x) in ('iter_len', 'try_get_len', 'size_hint')]
+                tgt_len = [x for x in subterms(amount) if x[0] == 'call' and method_of_term(x) in ('len', 'capacity') and x[2] and base_strip(x[2][0]) == P('self')]
+                known_unknown = any(pt[0] == 'discr' and pt[1][0] == 'call' and method_of_term(pt[1]) in ('iter_len', 'try_get_len') and f == ('eq', 0) for pt, f in c['pc'])
+                k2 = key + '/amount'
+                if not in_len:
+                    okk = known_unknown and const_int(amount)
+                    why = 'constant bound on the path where the input length is unknown' if okk else 'the reserved amount %s does not depend on the input length' % t_str(amount)[:100]
+                elif total_api and not tgt_len:
+                    okk = False
+                    why = 'reserve_maximum_concurrent_capacity takes a TOTAL capacity but is given %s, which omits the target\'s existing length' % t_str(amount)[:100]
+                else:
+                    okk = True
+                    why = 'amount %s' % t_str(amount)[:100]
+                out.inst(k2, okk, why, sample={'fn': key_of(b), 'reserve': method(c['t']), 'amount': t_str(amount)[:160]})
+                if not okk:
+                    out.fail(k2, '%s: %s: positional writes at `target.len() + position` can exceed the reserved capacity' % (key_of(b), why), b.where(c['line']))
     out.floor('bag_conversions', n, 2 if not ctx.fixture else 0)
     return out
 
@@ -1515,7 +1582,7 @@ def c02_first(ctx):
             after = cfg.reach(one)
             for (pred, rb), (val, pc) in r.ret_edges.items():
                 if pred in after and pred not in cfg.reach(zero, avoid={sbb}) | set():
-                    if any(a != inner for a in alternatives(val)):
+                    if any(a != inner and a != some(('field', inner, 1, 0)) for a in alternatives(val)):
                         probs.append('on the match edge the task returns %s, not the match it tested' % t_str(val)[:100])
             out.inst(key, not probs, t_str(x)[:100], sample={'task': key_of(b), 'search': t_str(x)[:160]})
             for p in probs:
